@@ -41,7 +41,21 @@ EXTRA = {
         ["add", "g", ["pulse", ["custom", E("var", "arr")], ["const", 4, 0.0], 0.0]] if False else
         ["add", "g", ["cp", 16, E("item", "arr", 3), E("sub", ["item", "arr", 0], ["item", "arr", 1]), E("item", "arr", 2)]]]),
 }
-TEMPLATES = dict(c04.PARAM_PROGRAMS)
+EXTRA.update({
+    # an array variable handed over whole / as a slice (the built waveform may keep the very array the variable holds)
+    "array_custom": dict(device="mock", vars=[("arr", "float", 4)], prog=[
+        ["declare", "g", "rydberg_global"],
+        ["add", "g", ["pulse", ["custom", E("var", "arr")], ["const", 4, E("item", "arr", 0)], 0.0]],
+        ["add", "g", ["pulse", ["custom", E("slice", "arr", 1, 4)], ["const", 3, 0.0], 0.5]]]),
+    # one (negative) expression object used by from_max_val and, again, by a later pulse
+    "blackman_shared_neg": dict(device="mock", vars=[("v", "float", 1)], concrete_vars=True, lets=[("low", ["neg", ["var", "v"]])], prog=[
+        ["declare", "g", "rydberg_global"],
+        ["add", "g", ["pulse", ["const", 120, 1.0], ["blackman_max", E("var", "low"), -0.05], 0.0]] if False else
+        ["add", "g", ["cdet", ["const", 16, 1.0], E("var", "low"), 0.0]],
+        ["add", "g", ["camp", 1.0, ["blackman_max", E("var", "low"), -0.05], 0.0]],
+        ["add", "g", ["cdet", ["const", 16, 1.0], E("var", "low"), 0.0]]]),
+})
+TEMPLATES = {k: v for k, v in c04.PARAM_PROGRAMS.items() if not v.get("qubits")}  # (mappable templates: C04 and the mappable kernel)
 TEMPLATES.update(EXTRA)
 
 
@@ -64,6 +78,7 @@ def h_build(shape):
         v1 = c04.var_values(inp, P, "v")
         v2 = c04.var_values(inp, P, "w")
         builds = []
+        kept = []  # timeline of each earlier result as the caller last saw it
         for vals in (v1, v2, v1, v1):
             try:
                 if builds:
@@ -71,7 +86,11 @@ def h_build(shape):
                     ch0 = list(builds[-1].declared_channels)[0]
                     if not builds[-1].is_measured() and not builds[-1].is_in_eom_mode(ch0) and not ch0.startswith("dmm"):
                         builds[-1].delay(100, ch0)
+                    kept.append(l2.timeline(builds[-1]))
                 b = tmpl.build(**vals)
+                # ... and a later build must not reach back into the results handed out before
+                for old_b, old_t in zip(builds, kept):
+                    obs.append(("build:earlier_results_unaffected", l2.snap_equal(l2.timeline(old_b), old_t)))
                 direct = c04.build_program(inp, dict(P, vars=None), env=vals)
             except l2.REFUSALS:
                 raise core.Infeasible()
